@@ -66,7 +66,9 @@ def c08(pid, tier, seed):
     chk.rule = ("exhaustive enumeration of (importing file, imported file) pairs: directories of 0..d-1 components over {., .., a, b, a.b, ..a, ...}, "
                 "file names over {a, b, a.b, ts, x.ts, yts, z.ts.ts, b.ts, ..f.ts} / {a.ts, b.ts, a.b.ts, ts.ts, x.ts, yts.ts, z.ts.ts, .ts, ..f.ts}, 8 base "
                 "directory spellings, import-esm off and on (two builds); the real import_path (verif hook) is judged by an independent lexical "
-                "resolver, 1% re-judged with Python posixpath, 0.05% against the real file system. distinct_nontrivial = distinct "
+                "resolver, 1% re-judged with Python posixpath, 0.05% against the real file system; end to end: every import statement written "
+                "by the exports of the graph corpus of C03 (roots exported one after the other in one process into differently named and "
+                "spelled directories) resolves to a written file that declares the imported names. distinct_nontrivial = distinct "
                 "(base, from-directory, import-directory, import file name class) whose normalisation contains a `..` or `.` segment or a dotted name")
     chk.assumptions = ["POSIX path semantics (the Windows `\\\\` branch of import_path cannot run here)",
                        "imported files end in .ts (a TypeScript import cannot name a file without it)"]
@@ -111,9 +113,48 @@ def c08(pid, tier, seed):
                         key = f"C08|{e.get('class')}|{'esm' if e.get('esm') else 'default'}|{reason_kind(e.get('reason', ''))}"
                         chk.violation(key, f"from={e['from']} import={e['import']} spec={e.get('spec')}: {e['reason']}",
                                       {k: e.get(k) for k in ("from", "import", "spec", "reason", "cwd", "esm")}, tags=[e.get("class")])
+        c08_end_to_end(chk, seed, tier)
     finally:
         cleanup_scratch()
     return chk.finish(min_evaluations=100000, min_distinct=50)
+
+
+def c08_end_to_end(chk, seed, tier):
+    """the specifiers that real exports write: many roots exported one after the other in one process, into directories of
+    different names and spellings (what is computed for one base directory must not leak into the next)"""
+    from . import graph
+    esm = (seed % 2 == 1)
+    events, entries = graph.run_exports(chk, seed, tier, esm=esm)
+    n = 0
+    for ev in events or []:
+        if ev["result"] != "ok":
+            continue
+        it, _args = entries[ev["id"]]
+        files = ev["files"]
+        for path, f in files.items():
+            if f.get("parse_error"):
+                continue
+            for imp in f["imports"]:
+                n += 1
+                chk.add_eval()
+                spec = imp["spec"]
+                stem = spec[:-3] if esm and spec.endswith(".js") else spec
+                target = graph.norm_join(posixpath.dirname(path), stem + ".ts")
+                problem = None
+                if not (spec.startswith("./") or spec.startswith("../")):
+                    problem = "specifier-not-relative"
+                elif esm != spec.endswith(".js"):
+                    problem = "wrong-extension"
+                elif target not in files:
+                    problem = "specifier-resolves-to-no-written-file"
+                elif not files[target].get("parse_error") and any(nm not in {d["name"] for d in files[target]["decls"]} for nm in imp["names"]):
+                    problem = "specifier-resolves-to-a-file-without-the-name"
+                if problem:
+                    chk.violation(f"C08|end-to-end|{problem}|{graph.placement_kind(it)}",
+                                  f"export of {ev['rust']} into {ev['dir_spelling'] or './bindings'!r}: {path} imports {imp['names']} from {spec!r} "
+                                  f"-> {target}: {problem}", {"root": ev["rust"], "dir": ev["dir_spelling"], "path": path, "import": imp,
+                                                             "files": sorted(files)}, tags=["end-to-end", problem] + graph.dep_ktags(it, _args))
+    chk.coverage_extra["end_to_end_imports_resolved"] = n
 
 
 def reason_kind(r):
